@@ -61,6 +61,8 @@ var hostiles = []hostile{
 	{"backslash", `b\n`},
 	{"colon", "k: v; w"},
 	{"nel", "n\u0085l\u2028m"},
+	{"cr", "a\rb"},
+	{"ps", "p\u2029s"},
 	{"plain", "plain"},
 }
 
@@ -88,6 +90,8 @@ func yamlDQ(s string) string {
 			b.WriteString(`\N`)
 		case r == 0x2028:
 			b.WriteString(`\L`)
+		case r == 0x2029:
+			b.WriteString(`\P`)
 		default:
 			b.WriteRune(r)
 		}
@@ -120,6 +124,7 @@ var sites = []site{
 	{Name: "step-id-dup", Tmpl: hdr + "      - id: @Q@\n        run: echo\n      - id: @Q@\n        run: echo\n"},
 	{Name: "matrix-key", Tmpl: "on: push\njobs:\n  test:\n    runs-on: ubuntu-latest\n    strategy:\n      matrix:\n        @Q@: [1, 2]\n    steps:\n      - run: echo ${{ matrix.nope }}\n"},
 	{Name: "matrix-value-dup", Tmpl: "on: push\njobs:\n  test:\n    runs-on: ubuntu-latest\n    strategy:\n      matrix:\n        os: [@Q@, @Q@]\n    steps:\n      - run: echo\n"},
+	{Name: "matrix-key-listed", Tmpl: "on: push\njobs:\n  test:\n    runs-on: ubuntu-latest\n    strategy:\n      matrix:\n        @Q@: [1]\n        other: [2]\n        exclude:\n          - target: 1\n    steps:\n      - run: echo\n"},
 	{Name: "matrix-exclude-key", Tmpl: "on: push\njobs:\n  test:\n    runs-on: ubuntu-latest\n    strategy:\n      matrix:\n        os: [a]\n        exclude:\n          - @Q@: b\n    steps:\n      - run: echo\n"},
 	{Name: "matrix-exclude-value", Tmpl: "on: push\njobs:\n  test:\n    runs-on: ubuntu-latest\n    strategy:\n      matrix:\n        os: [a]\n        exclude:\n          - os: @Q@\n    steps:\n      - run: echo\n"},
 	{Name: "runner-label", Tmpl: "on: push\njobs:\n  test:\n    runs-on: @Q@\n    steps:\n      - run: echo\n"},
@@ -478,7 +483,9 @@ func (a *partA) eval(st *site, h hostile, emit bool) {
 			a.echoed[st.Name] = true
 			a.nontriv[src] = true
 		}
-		if strings.Contains(e.Message, "\n") || strings.Contains(e.Filepath, "\n") || strings.Contains(e.Kind, "\n") {
+		// line breaks: LF, and what the consumers of the output take as one as well - CR, and the Unicode
+		// line terminators NEL, LS, PS (the `.` of the ECMAScript pattern of the problem matcher stops at CR, LS, PS)
+		if strings.ContainsAny(e.Message, lineBreaks) || strings.ContainsAny(e.Filepath, lineBreaks) || strings.ContainsAny(e.Kind, lineBreaks) {
 			multiline = true
 			a.fail(mk("a diagnostic message contains a line break", fmt.Sprintf("c16:newline-in-message:site=%s:class=%s", st.Name, msgClass(e.Message)), "library", fmt.Sprintf("%q", e.Message)))
 		}
@@ -586,14 +593,20 @@ func (a *partA) eval(st *site, h hostile, emit bool) {
 	}
 }
 
+const lineBreaks = "\n\r\u0085\u2028\u2029"
+
 func (a *partA) checkMatcher(ln string, e *actionlint.Error, mk func(what, key, mode, detail string) failure, mode string) {
 	m := a.re.FindStringSubmatch(ln)
 	ok := m != nil && m[1] == e.Filepath && m[2] == fmt.Sprint(e.Line) && m[3] == fmt.Sprint(e.Column) && m[4] == e.Message && m[5] == e.Kind
-	if ok {
+	// the pattern is an ECMAScript one: its `.` does not match CR, LS or PS (Go's stops at LF only)
+	js := !strings.ContainsAny(ln, "\r\u2028\u2029")
+	if ok && js {
 		return
 	}
 	reason := "other"
 	switch {
+	case !js:
+		reason = "header-contains-a-line-terminator-of-the-pattern-language"
 	case mode == "oneline-color" && m != nil && m[1] != e.Filepath && ansi.ReplaceAllString(m[1], "") == e.Filepath &&
 		m[2] == fmt.Sprint(e.Line) && m[3] == fmt.Sprint(e.Column) && m[4] == e.Message && m[5] == e.Kind:
 		// every line after the first starts with the reset sequence of the previous line
@@ -723,6 +736,53 @@ func sweep(sum *hx.Summary, w io.Writer, src string) {
 	}
 	rw, sw := widthTables(src)
 	fmt.Fprintf(w, "(mkSc %s %s %s %s, [])\n", hexs(src), rw, sw, hx.CoqList(pts))
+}
+
+// longSources: sources larger than the line reader's buffer (4096 bytes, then doubled), with LF and
+// CRLF line ends placed around the buffer boundaries; the snippet of every line (oracle only: the
+// quadratic position sweep and the model evaluation are for the short sources)
+func longSources(sum *hx.Summary) {
+	for _, eol := range []string{"\n", "\r\n"} {
+		for _, boundary := range []int{4096, 8192, 16384} {
+			for d := -3; d <= 2; d++ {
+				var b strings.Builder
+				b.WriteString("# first" + eol)
+				// one long comment line whose line end starts at boundary+d
+				pad := boundary + d - b.Len()
+				b.WriteString(strings.Repeat("x", pad) + eol)
+				for i := 0; i < 12; i++ {
+					fmt.Fprintf(&b, "key%d: value %d%s", i, i, eol)
+				}
+				src := b.String()
+				nl := strings.Count(src, "\n")
+				for line := 1; line <= nl; line++ {
+					for _, col := range []int{1, 4} {
+						e := &actionlint.Error{Message: "msg", Filepath: "f.yml", Line: line, Column: col, Kind: "kind"}
+						var buf bytes.Buffer
+						e.PrettyPrint(&buf, []byte(src))
+						sum.Evaluations++
+						sum.Dist["long_source_snippets"]++
+						ls := strings.Split(strings.TrimSuffix(buf.String(), "\n"), "\n")
+						what := ""
+						if len(ls) != 4 {
+							what = fmt.Sprintf("PrettyPrint printed %d lines for a position inside the source", len(ls))
+						} else {
+							what = checkSnippet(src, line, col, ls[1], ls[2], ls[3])
+						}
+						tf := e.GetTemplateFields([]byte(src))
+						if want, _ := refLine(src, line); what == "" && !strings.HasPrefix(tf.Snippet, want) {
+							what = "template snippet does not start with the referenced source line"
+						}
+						if what != "" {
+							sum.OracleFails = append(sum.OracleFails, failure{What: what + " (source of " + fmt.Sprint(len(src)) + " bytes, line end " + fmt.Sprintf("%q", eol) + " at byte " + fmt.Sprint(boundary+d) + ")",
+								Key: fmt.Sprintf("c16:snippet-wrong:long-source:eol=%q", eol), Source: src, Line: line, Col: col, Detail: buf.String()})
+							break
+						}
+					}
+				}
+			}
+		}
+	}
 }
 
 // ---- part D: multi-file order ---------------------------------------------------------
@@ -933,7 +993,7 @@ func main() {
 		st := &sites[si]
 		for hi, h := range hostiles {
 			// quick: every site with the line-break strings and a rotating sample of the others
-			if *tier != "thorough" && hi >= 6 && (hi+si)%4 != 0 {
+			if *tier != "thorough" && hi >= 6 && !strings.ContainsAny(h.S, lineBreaks) && (hi+si)%4 != 0 {
 				continue
 			}
 			a.eval(st, h, *tier == "thorough" || (hi+si)%3 == 0)
@@ -951,6 +1011,49 @@ func main() {
 	sum.Extra["echo_sites_not_echoing"] = silent
 	sum.Extra["workflows"] = nEval
 
+	// part E: oneLine (the flattening of library error texts) against its model
+	ef, err := os.Create(filepath.Join(*out, "cases_oneline.txt"))
+	must(err)
+	defer ef.Close()
+	{
+		r := hx.NewRng(*seed + 16)
+		alphabet := []string{"a", " ", "\n", "\r", "\r\n", "\u0085", "\u2028", "\u2029", "日", ":", "\t", "\r\r\n", "\n\r"}
+		var texts []string
+		for _, h := range hostiles {
+			texts = append(texts, h.S, "invalid: "+h.S+" end", h.S+h.S)
+		}
+		nE := 300
+		if *tier == "thorough" {
+			nE = 5000
+		}
+		for i := 0; i < nE; i++ {
+			var b strings.Builder
+			for j, n := 0, r.Intn(9); j < n; j++ {
+				b.WriteString(r.Pick(alphabet))
+			}
+			texts = append(texts, b.String())
+		}
+		for _, t := range texts {
+			got := actionlint.VerifOneLine(t)
+			sum.Evaluations++
+			sum.Dist["one_line_texts"]++
+			if strings.ContainsAny(got, lineBreaks) {
+				sum.OracleFails = append(sum.OracleFails, failure{What: "the flattened text of a library error still contains a line break", Key: "c16:one-line:break-left", Detail: fmt.Sprintf("input %q output %q", t, got)})
+			}
+			if !strings.ContainsAny(t, lineBreaks) && got != t {
+				sum.OracleFails = append(sum.OracleFails, failure{What: "a text without line breaks is changed by the flattening", Key: "c16:one-line:changed", Detail: fmt.Sprintf("input %q output %q", t, got)})
+			}
+			cps := func(x string) string {
+				var xs []string
+				for _, c := range x {
+					xs = append(xs, fmt.Sprint(int(c)))
+				}
+				return "[" + strings.Join(xs, "; ") + "]%N"
+			}
+			fmt.Fprintf(ef, "(%s, [%s])\n", cps(t), cps(got))
+		}
+	}
+
 	// part B
 	sf, err := os.Create(filepath.Join(*out, "cases_sweep.txt"))
 	must(err)
@@ -962,6 +1065,7 @@ func main() {
 	for _, s := range pool {
 		sweep(sum, sf, s)
 	}
+	longSources(sum)
 	sum.Extra["sweep_sources"] = len(pool)
 	sum.Extra["sweep_points"] = sum.Evaluations - nEval
 
